@@ -403,3 +403,20 @@ End Par.
 (* Analysis.do_trials: args_list = [((), kwargs) for i in range(n)], every task
    is do_trial(rss=...), the result array keeps the order of result_list *)
 Definition do_trials_args (n : Z) : list unit := repeat tt (Z.to_nat (trials_n_tasks n)).
+
+(* ------------------------------------------------------------------------- *)
+(* two schedules (2 workers) on which the loop before the fix never ends      *)
+
+Definition wres2 : nat -> res (list nat) := fun p => Ok [p].
+
+(* (a) worker 2 delivers and ends regularly, its record is consumed in the
+   iteration of processes[0]; worker 1 dies without a result *)
+Definition sched_a : list action :=
+  [Worker 2 APutResult; Worker 2 APutEnd; Worker 2 AExit0; Worker 1 (ADie 1%Z);
+   Master; Master; Master; Master].
+
+(* (b) worker 1 dies after rqueue.put and before the end marker *)
+Definition sched_b : list action :=
+  [Worker 1 APutResult; Worker 1 (ADie 1%Z); Worker 2 APutResult; Worker 2 APutEnd;
+   Worker 2 AExit0; Master; Master].
+
